@@ -41,7 +41,7 @@ func CatalogSpecs(seed int64) []Func {
 	r := NewRng(mix64(seed, 0xca7a106))
 	g := &genCtx{r: r}
 	g.ft = Feat{NT: 6, Names: []string{"n1", "n2"}, Groups: []string{"g1", "g2"}, Objects: true, Optional: true, Soft: true,
-		Flatten: true, Variadic: true, PVariadic: 0.1, PAvail: 0, PDup: 1, PErrFirst: 0.12, DecoIntroduce: true, GroupDecs: true, Decorators: true}
+		Flatten: true, Variadic: true, PVariadic: 0.1, MaxParams: 3, PAvail: 0, PDup: 1, PErrFirst: 0.12, DecoIntroduce: true, GroupDecs: true, Decorators: true}
 	g.h = &History{}
 	g.m = NewModel(false)
 	var out []Func
